@@ -125,6 +125,10 @@ def build_rust():
 
 def regen_tables():
     """T1: tables regenerated from the running code."""
+    if "VERIF_REPO" in os.environ and not os.environ.get("VERIF_SELFTEST_REGEN"):
+        # self-test against a scratch copy: the shared coq/gen keeps describing /repo (mutants that change
+        # the catalogue are tested by patching /repo itself)
+        return
     os.makedirs(os.path.join(COQ, "gen"), exist_ok=True)
     rc, out = sh([os.path.join(HARNESS_DIR, "catalogue")])
     cat = os.path.join(BUILD, "catalogue.json")
